@@ -186,7 +186,7 @@ func (c02) Gen(seed int64, tier string, emit func(any)) {
 	r := rand.New(rand.NewSource(seed))
 	nctl, nfree := 1500, 150
 	if tier == "thorough" {
-		nctl, nfree = 15000, 1500
+		nctl, nfree = 8000, 1000
 	}
 	for i := 0; i < nctl; i++ {
 		emit(c02RandCtl(r, tier))
